@@ -165,6 +165,23 @@ def Desc.conv (sep : Option Char) (d : Desc) : Desc :=
   | none => d
   | some c => { d with name := convStr c d.name, prev := convStr c d.prev }
 
+/-- http/server.go isSafeRelPath (Unix): the name is not empty, not absolute, has no `..`
+    segment and at least one segment other than the empty one and `.`. -/
+def safeRel (p : List Char) : Bool :=
+  match p with
+  | [] => false
+  | c :: _ =>
+    c != '/' && !((splitOnC '/' p).contains ['.', '.']) &&
+      (splitOnC '/' p).any (fun s => s != [] && s != ['.'])
+
+/-- one part under http/server.go findUnsafePartName: the name must be safe; rename target
+    and predecessor must be safe unless they are empty. (On the data route the names are
+    those NewDecoder hands out: Name and Prev already separator-converted, Renamed raw.) -/
+def Desc.safe (d : Desc) : Bool :=
+  safeRel d.name.toList &&
+  (d.renamed.toList == [] || safeRel d.renamed.toList) &&
+  (d.prev.toList == [] || safeRel d.prev.toList)
+
 /-- The header codec (`json.Marshal` of `[]*fileMeta` / `json.NewDecoder(pr).Decode`). `dec` is
     a *stream* decoder: it decodes the first value and does not look at what follows.
     `incomplete bs` says that the decoder has seen no error in `bs` but needs more input. -/
@@ -395,7 +412,9 @@ structure Routed where
 deriving DecidableEq, Repr
 
 /-- http/server.go routeData (method PUT): no body ⇒ 400; `Atoi` of X-STS-MetaLen fails
-    ⇒ 400; decoder error ⇒ 500; `Prepare(parts)`; the loop. `old = true` uses the
+    ⇒ 400; decoder error ⇒ 500; an unsafe name, rename target or predecessor among the parts
+    ⇒ 400 (`fix: refuse file names … that leave the receiver's directories`);
+    `Prepare(parts)`; the loop. `old = true` uses the
     unrepaired NewDecoder. -/
 def routeData (c : Codec) (rk : RecvKind) (old : Bool) (hasBody : Bool) (metaLen : List Char)
     (sep : Option Char) (extra : Nat) (s : Stream) : Routed :=
@@ -407,6 +426,8 @@ def routeData (c : Codec) (rk : RecvKind) (old : Bool) (hasBody : Bool) (metaLen
     | .fail => ⟨.err500, none, []⟩
     | .hang => ⟨.hang, none, []⟩
     | .ok ds rest =>
+      -- findUnsafePartName: before Prepare, nothing is read from the body
+      if !ds.all Desc.safe then ⟨.bad400, none, []⟩ else
       let r := routeLoop rk ds extra 0 rest
       ⟨r.2, some ds, r.1⟩
 
